@@ -8,3 +8,6 @@ mod steer;
 
 #[path = "algorithm_kalman_ctrl.rs"]
 mod ctrl;
+
+#[path = "algorithm_kalman_whole.rs"]
+mod whole;
